@@ -231,11 +231,13 @@ def run(ctx):
         rng.shuffle(near)
         near = near[:250]
     bodies += allb + near
-    for body in bodies:
+    SENS = ['bare', 'not', 'and', 'or', 'alias']          # contexts in which the reply body decides
+    for bi, body in enumerate(bodies + SPECIAL_BODIES):
         status = rng.choice([200, 200, 204, 403, 404, 500])
         ctype = rng.choice(['form', 'json'])
         target = copy.deepcopy(rng.choice(TARGETS))
-        ctxt = rng.choice(CTX)
+        # the hand-picked bodies run (twice) under contexts where the body matters; the others mostly so
+        ctxt = SENS[bi % len(SENS)] if (bi < len(SPECIAL_BODIES) or bi >= len(bodies) or rng.random() < 0.7) else rng.choice(CTX)
         pname = rng.choice(['p:x', 'compute:get', 'n'])
         scheme = rng.choice(['http', 'https'])
         by = 'check' if (rng.random() < 0.15 and ctxt != 'alias') else 'name'
